@@ -6,7 +6,7 @@ CONSTANTS NAcc = 1
           HistLimits = {2}
           Policies = {"any"}
           Asyncs = {FALSE}
-          IndexOns = {FALSE, TRUE}
+          IndexOns = {FALSE}
           MaxId = 3
 INVARIANTS TypeOK ViewIsRoot Aligned HistChain IndexExact ReadCorrect RefusalExact
 CONSTRAINT Bounded
